@@ -59,23 +59,25 @@ pub fn apply(lib: Library) -> Result<Library, Vec<Diagnostic>> {
     // Split based on the type so that we put all of the data type declarations
     // at the beginning.
     let mut postfix_types = Vec::new();
-    let mut types_by_name: HashMap<Id, DataTypeDeclarationKind> = HashMap::new();
-    let mut elems_by_name: HashMap<Id, LibraryElementKind> = HashMap::new();
+    // A name can be declared more than once (that is an error that a later stage
+    // reports) so each name maps to all declarations having that name.
+    let mut types_by_name: HashMap<Id, Vec<DataTypeDeclarationKind>> = HashMap::new();
+    let mut elems_by_name: HashMap<Id, Vec<LibraryElementKind>> = HashMap::new();
     for element in lib.elements {
         match element {
             LibraryElementKind::DataTypeDeclaration(decl) => {
                 match decl {
                     DataTypeDeclarationKind::Enumeration(decl) => {
-                        types_by_name.insert(
-                            decl.type_name.name.clone(),
-                            DataTypeDeclarationKind::Enumeration(decl),
-                        );
+                        types_by_name
+                            .entry(decl.type_name.name.clone())
+                            .or_default()
+                            .push(DataTypeDeclarationKind::Enumeration(decl));
                     }
                     DataTypeDeclarationKind::Subrange(decl) => {
-                        types_by_name.insert(
-                            decl.type_name.name.clone(),
-                            DataTypeDeclarationKind::Subrange(decl),
-                        );
+                        types_by_name
+                            .entry(decl.type_name.name.clone())
+                            .or_default()
+                            .push(DataTypeDeclarationKind::Subrange(decl));
                     }
                     DataTypeDeclarationKind::Simple(decl) => {
                         // Can refer to other declarations, but does not have any declarations itself
@@ -84,22 +86,22 @@ pub fn apply(lib: Library) -> Result<Library, Vec<Diagnostic>> {
                         ));
                     }
                     DataTypeDeclarationKind::Array(decl) => {
-                        types_by_name.insert(
-                            decl.type_name.name.clone(),
-                            DataTypeDeclarationKind::Array(decl),
-                        );
+                        types_by_name
+                            .entry(decl.type_name.name.clone())
+                            .or_default()
+                            .push(DataTypeDeclarationKind::Array(decl));
                     }
                     DataTypeDeclarationKind::Structure(decl) => {
-                        types_by_name.insert(
-                            decl.type_name.name.clone(),
-                            DataTypeDeclarationKind::Structure(decl),
-                        );
+                        types_by_name
+                            .entry(decl.type_name.name.clone())
+                            .or_default()
+                            .push(DataTypeDeclarationKind::Structure(decl));
                     }
                     DataTypeDeclarationKind::StructureInitialization(decl) => {
-                        types_by_name.insert(
-                            decl.type_name.name.clone(),
-                            DataTypeDeclarationKind::StructureInitialization(decl),
-                        );
+                        types_by_name
+                            .entry(decl.type_name.name.clone())
+                            .or_default()
+                            .push(DataTypeDeclarationKind::StructureInitialization(decl));
                     }
                     DataTypeDeclarationKind::String(decl) => {
                         // Can refer to other declarations, but does not have any declarations itself
@@ -108,49 +110,66 @@ pub fn apply(lib: Library) -> Result<Library, Vec<Diagnostic>> {
                         ));
                     }
                     DataTypeDeclarationKind::LateBound(decl) => {
-                        types_by_name.insert(
-                            decl.data_type_name.name.clone(),
-                            DataTypeDeclarationKind::LateBound(decl),
-                        );
+                        types_by_name
+                            .entry(decl.data_type_name.name.clone())
+                            .or_default()
+                            .push(DataTypeDeclarationKind::LateBound(decl));
                     }
                 }
             }
             LibraryElementKind::FunctionDeclaration(decl) => {
-                elems_by_name.insert(
-                    decl.name.clone(),
-                    LibraryElementKind::FunctionDeclaration(decl),
-                );
+                elems_by_name
+                    .entry(decl.name.clone())
+                    .or_default()
+                    .push(LibraryElementKind::FunctionDeclaration(decl));
             }
             LibraryElementKind::FunctionBlockDeclaration(decl) => {
-                elems_by_name.insert(
-                    decl.name.clone(),
-                    LibraryElementKind::FunctionBlockDeclaration(decl),
-                );
+                elems_by_name
+                    .entry(decl.name.clone())
+                    .or_default()
+                    .push(LibraryElementKind::FunctionBlockDeclaration(decl));
             }
             LibraryElementKind::ProgramDeclaration(decl) => {
-                elems_by_name.insert(
-                    decl.name.clone(),
-                    LibraryElementKind::ProgramDeclaration(decl),
-                );
+                elems_by_name
+                    .entry(decl.name.clone())
+                    .or_default()
+                    .push(LibraryElementKind::ProgramDeclaration(decl));
             }
             LibraryElementKind::ConfigurationDeclaration(decl) => {
-                elems_by_name.insert(
-                    decl.name.clone(),
-                    LibraryElementKind::ConfigurationDeclaration(decl),
-                );
+                elems_by_name
+                    .entry(decl.name.clone())
+                    .or_default()
+                    .push(LibraryElementKind::ConfigurationDeclaration(decl));
             }
+        }
+    }
+
+    // The name of a function, function block, program or configuration can be defined only once
+    for (name, elems) in elems_by_name.iter() {
+        if elems.len() > 1 {
+            return Err(vec![Diagnostic::problem(
+                Problem::DefinitionNameDuplicated,
+                Label::span(name.span.clone(), "Duplicated definition"),
+            )]);
         }
     }
 
     // Merge things back together
     let mut elements = Vec::new();
-    elements.extend(sorted_ids.iter().filter_map(|id| {
-        types_by_name
-            .remove(id)
-            .map(LibraryElementKind::DataTypeDeclaration)
-    }));
+    elements.extend(
+        sorted_ids
+            .iter()
+            .filter_map(|id| types_by_name.remove(id))
+            .flatten()
+            .map(LibraryElementKind::DataTypeDeclaration),
+    );
     elements.extend(postfix_types);
-    elements.extend(sorted_ids.iter().filter_map(|id| elems_by_name.remove(id)));
+    elements.extend(
+        sorted_ids
+            .iter()
+            .filter_map(|id| elems_by_name.remove(id))
+            .flatten(),
+    );
 
     Ok(Library { elements })
 }
